@@ -789,10 +789,22 @@ func constExprMutableGlobal(m *wasm.Module) string {
 // disagreement, runtime error) caused by one of them gets a signature naming the cause:
 //   tail-call-result-mismatch : a return_call / return_call_indirect whose callee result types differ
 //                               from the caller's (invalid per the tail-call proposal, accepted here)
+//   ref-func-names-tagged-element-item : a body holds `ref.func (g | 1<<30)`, no such function exists, and an element
+//                               item `global.get g` (stored as g | 1<<30) made it count as declared
 //   atomic-rmw8-logic-after-call : i64.atomic.rmw8.{and,or,xor}_u (compare-exchange loops on amd64)
 func causeTags(m *wasm.Module, bin []byte) string {
 	var tags []string
-	mismatch, rmw := false, false
+	mismatch, rmw, refTagged := false, false, false
+	// element items written as `global.get g` are stored as g | 1<<30 in the function-index space
+	taggedItems := map[uint64]bool{}
+	for i := range m.ElementSection {
+		for _, it := range m.ElementSection[i].Init {
+			if it != wasm.ElementInitNullReference && it&(1<<30) != 0 {
+				taggedItems[uint64(it)] = true
+			}
+		}
+	}
+	nFuncs := uint64(m.ImportFunctionCount) + uint64(len(m.FunctionSection))
 	for i := range m.CodeSection {
 		if int(i) >= len(m.FunctionSection) || int(m.FunctionSection[i]) >= len(m.TypeSection) {
 			continue
@@ -825,6 +837,10 @@ func causeTags(m *wasm.Module, bin []byte) string {
 				}
 			case o.Prefix == 0xfe && (o.Op == 0x30 || o.Op == 0x37 || o.Op == 0x3e):
 				rmw = true
+			case o.Prefix == 0 && o.Op == 0xd2 && o.Imm >= nFuncs && taggedItems[o.Imm]:
+				// ref.func of a function that does not exist, accepted because its immediate equals the stored
+				// form of an element item `global.get g`
+				refTagged = true
 			}
 		}
 	}
@@ -859,6 +875,9 @@ func causeTags(m *wasm.Module, bin []byte) string {
 				}
 			}
 		}
+	}
+	if refTagged {
+		tags = append(tags, "ref-func-names-tagged-element-item")
 	}
 	if mismatch {
 		tags = append(tags, "tail-call-result-mismatch")
